@@ -41,23 +41,21 @@ Qed.
 
 (* one script per shape of parse_field arm; tried in turn so that the proof
    survives new field kinds of a known shape in C05's schema language *)
-Ltac field_case Hl :=
-  solve
-   [ eapply sat_bind; [apply rd_sat|]; intros ? _;
-     first [ exact I
-           | match goal with |- sat (match ?x with _ => _ end) _ => destruct x; exact I end
-           | eapply sat_bind; [apply rd_sat|]; intros ? _; exact I ]
-   | eapply sat_bind; [apply decode_name_sat; exact Hl|]; intros ? _; exact I
-   | eapply sat_bind; [apply rd8_sat; exact Hl|]; intros ? _;
-     eapply sat_bind; [apply rd_sat|]; intros ? _;
-     first [ exact I | match goal with |- sat (if ?c then _ else _) _ => destruct c; exact I end ]
-   | eapply sat_bind; [apply parse_strs_sat; [exact Hl|lia]|]; intros ? _; exact I
-   | match goal with |- sat (if ?c then _ else _) _ => destruct c; [exact I|] end;
-     eapply sat_bind; [apply rd_sat|]; intros ? _; exact I ].
+Ltac field_step Hl :=
+  lazymatch goal with
+  | |- sat (Ok _) _ => exact I
+  | |- sat (Err _) _ => exact I
+  | |- sat (bind (rd _ _ _ _) _) _ => eapply sat_bind; [apply rd_sat|]; intros ? _
+  | |- sat (bind (rd8 _ _ _) _) _ => eapply sat_bind; [apply rd8_sat; exact Hl|]; intros ? _
+  | |- sat (bind (pname_dec _ _ _) _) _ => eapply sat_bind; [apply decode_name_sat; exact Hl|]; intros ? _
+  | |- sat (bind (parse_strs _ _ _ _ _) _) _ => eapply sat_bind; [apply parse_strs_sat; [exact Hl|lia]|]; intros ? _
+  | |- sat (if ?c then _ else _) _ => destruct c
+  | |- sat (match ?x with _ => _ end) _ => destruct x
+  end.
 
 Lemma parse_field_sat f m pos lim : lim <= mlen m ->
   sat (parse_field pname_dec f m pos lim) (fun _ => True).
-Proof. intros Hl. destruct f; cbn [parse_field]; field_case Hl. Qed.
+Proof. intros Hl. destruct f; cbn [parse_field]; repeat (field_step Hl). Qed.
 
 Lemma parse_fields_sat : forall s m pos lim, lim <= mlen m ->
   sat (parse_fields pname_dec s m pos lim) (fun _ => True).
